@@ -122,6 +122,8 @@ def run(ctx) -> None:
     run_prerequisite(ctx, "C03", ("R1", "R3", "R4"), "R6")
     ctx.rule("R7", "prerequisite: the PEP440 value printed by test/show is the comparator's canonical string (C16/R7)")
     run_prerequisite(ctx, "C16", ("R7",), "R7")
+    ctx.rule("R8", "prerequisite: in the legacy engine what is rendered for {pep440_version} / {pep440_pycalver} / {pep440_tag} is accepted by its search pattern (C20/R1, those parts only)")
+    run_prerequisite(ctx, "C20", ("R1",), "R8", only=lambda key: "pep440" in key)
     ctx.rule("R5", "derivation constants: 'v' stripped, separators stripped, PYTAGNUM appended; to_pep440 = str(parse_version(v))")
 
     t2p = prog.const("version", "PEP440_TAG_BY_TAG")
